@@ -34,5 +34,6 @@ MANIFEST = dict(
                 "operator node and of every literal (node-level round trip), and whatever the reader returns for the written text has the meaning btor2 assigns to that text (C08); "
                 "the whole-system round trip is tested, not proved. Tie to /repo: real serialize + parse_str on generated, parsed and all shipped systems on every run."),
     level_note=("Partial: the statement roundtrip_sem (emission order, id cache, sort table over whole systems) is kept as a comment; names are string heuristics and are tested only. "
-                "Two name-stability defects are recorded as known findings."),
+                "Name-stability defects of the writer/reader pair are recorded as known findings (names:...); Model.serialize_named_v takes the writer variant "
+                "(driver constant writer_variant: writer_cur = /repo; writer_fix = prepared patches/0008 + 0010)."),
 )
